@@ -30,7 +30,7 @@ fn main() {
     quiet_panics();
     let w = World::new(16);
     for c in read_cases() {
-        let g = genesis_hash(c["g"].as_i64().unwrap_or(0));
+        let g = w.genesis(c["g"].as_i64().unwrap_or(0));
         let e = validator::EpochNumber(c.get("e").map(u64_of).unwrap_or(0));
         let sched = w.schedule(&c["committee"]);
         let ids = &c["payload_ids"];
@@ -113,6 +113,10 @@ fn main() {
                 };
                 let r = catch(std::panic::AssertUnwindSafe(|| b.verify(g, e, &sched)));
                 json!({"obs": outcome(r, unit, block_err)})
+            }
+            "order" => {
+                let (_, order) = w.tqc(&c["qc"]);
+                json!({"order": order})
             }
             _ => panic!("unknown op {op}"),
         };
